@@ -1,12 +1,14 @@
 import Driver.Common
 import Driver.UpcastDrv
 import Driver.BusDrv
+import Driver.StoreDrv
 open Driver
 
 def runDomain (dom : String) (lines : Array String) : Array String :=
   match dom with
   | "upcast" => UpcastDrv.runCase lines
   | "bus" => BusDrv.runCase lines
+  | "store" => StoreDrv.runCase lines
   | _ => #["unknown-domain " ++ dom]
 
 def main (args : List String) : IO UInt32 := do
